@@ -8,6 +8,8 @@ use std::path::PathBuf;
 pub mod c01;
 pub mod c04;
 pub mod c06;
+pub mod c07;
+pub mod c08;
 pub mod c09;
 pub mod c13;
 pub mod c15;
@@ -30,6 +32,8 @@ pub fn registry() -> Vec<CheckDef> {
         c01::def(),
         c04::def(),
         c06::def(),
+        c07::def(),
+        c08::def(),
         c09::def(),
         c13::def(),
         c15::def(),
